@@ -26,6 +26,7 @@ LEVEL_TEXT = (
     " Added: coefficient-table reads between states, a simulator override that must stay local, a simulation "
     "whose result views are read, and then edits of a rate law, a derived function, a parameter and an initial "
     "value in turn - everything resolved at t=0 must follow the edited description. "
+    ' Also: make_variable_static after a simulation, and the time-course form of every query with its columns reversed.'
 )
 LEVEL_NOTE = "trusted: mc/refeval.py (self-tested); prime-weighted affine functions make every mis-resolution visible"
 RULE = (
